@@ -498,7 +498,7 @@ FAMILIES = [dict(name='cpcbig', harness='drv_cpc.cpp', extract=None, model=None,
 FAMILIES = FAMILIES[1:] + FAMILIES[:1]
 
 MANIFEST = dict(
-    level_text=('PROVED in Coq (coq/Properties_C05.v, 23 theorems, axiom-free, for EVERY lg_k, seed and sequence of (row,col) pairs, i.e. for arbitrary hash '
+    level_text=('PROVED in Coq (coq/Properties_C05.v, 26 theorems, axiom-free, for EVERY lg_k, seed and sequence of (row,col) pairs, i.e. for arbitrary hash '
                 'functions; partial correctness: whenever the model returns a result, i.e. the code neither throws nor runs into UB): '
                 '(1) u32_table (linear probing, growth/shrink rebuild, delete by re-insertion) refines a finite set for any sequence of inserts/deletes, returns exact '
                 'novelty flags, never stores an item twice, counts correctly; (2) after any update sequence build_bit_matrix(sketch) = the matrix with exactly the offered '
@@ -516,10 +516,11 @@ MANIFEST = dict(
                 'result lg_k = min over the union and the NON-EMPTY inputs; build_bit_matrix(result) = matrix of the inputs\' coupons with rows folded modulo 2^lg_k (= OR of the folded '
                 'input matrices, stated bitwise); num_coupons = its popcount; the result again satisfies the sketch invariant (so it can be updated or fed to another union); '
                 'independent of the order of the inputs (C05_union_perm). Side condition: the result offset is <= 56 (i.e. fewer than 59.4K of 64K coupons). '
-                'CORRESPONDENCE ONLY (model = code on generated scripts, and property predicates evaluated on the implementation): '
-                'the per-flavor composition compress()/uncompress() (pair sorting, hybrid merge, -8 shift, column '
-                'rotation+permutation) is modelled and its output words are compared with the implementation\'s for every flavor but the end-to-end '
-                'uncompress(compress s) = s theorem is not assembled; serialize->deserialize is additionally checked on the implementation (bytes = stream, re-serialization '
+                '(5) END-TO-END CODEC per flavor: uncompress(compress(s)) returns the window and the same table set for EMPTY / SPARSE / HYBRID (window pairs merged and split back) / '
+                'PINNED (columns -8/+8) / SLIDING (rotation by the offset + phase permutation and its inverse), so the sketch after deserialize(serialize s) has the same fields and represents '
+                'the same coupon set (C05_codec_roundtrip_state); side condition only for SLIDING with more than 48K surprising values. '
+                'CORRESPONDENCE ONLY (model = code on generated scripts, and property predicates evaluated on the implementation): the preamble/byte layer of the image (being modelled in '
+                'the codec family fam_cpccodec for C09/C10/C11); serialize->deserialize is additionally checked on the implementation (bytes = stream, re-serialization '
                 'identical, estimates/bounds/kxp/HIP bit-identical, deserialized state identical incl. deserialize-then-continue); merged-form estimate is a function of (lg_k, C).'),
     level_note=('Trusted: Coq kernel + vm_compute; translator translators/gen_cpctables.py (strict: exact dimensions, every entry parsed); hand-written Gallina model of the '
                 'headers validated by the correspondence runs (coupon count, validate(), flavor, offset, first_interesting_column, window bytes, sorted table, matrix rows of '
